@@ -2,9 +2,13 @@
 
 package user
 
-import "crypto/rsa"
+import (
+	"crypto/rsa"
+	"io"
+)
 
-// Verification hooks: access to the embedded services key. Add-only; absent without the tag.
+// Verification hooks: access to the embedded services key and to the unexported line breaker.
+// Add-only; absent without the tag.
 
 // PubKeyVerif returns the key VerifySignature checks against.
 func PubKeyVerif() *rsa.PublicKey { return pubKey }
@@ -15,3 +19,7 @@ func SwapPubKeyVerif(k *rsa.PublicKey) (old *rsa.PublicKey) {
 	old, pubKey = pubKey, k
 	return old
 }
+
+// NewLineBreakerVerif returns the line breaker VerifySignature puts between the base64 encoder and the hash,
+// writing to out, so that the harness can observe the text it produces for arbitrary sequences of writes.
+func NewLineBreakerVerif(out io.Writer) io.WriteCloser { return &lineBreaker{out: out} }
